@@ -115,8 +115,11 @@ type Creds struct {
 	KG       []byte
 	Priv     uint8
 	Lookup   bool // PrivilegeLevelLookup (name + privilege)
-	Suite    ref.Suite
-	Seed     uint64
+	// Packed: 0 = password and K_G are separate allocations; 1 = one buffer
+	// holding password, K_G, further data; 2 = K_G, password, further data
+	Packed int
+	Suite  ref.Suite
+	Seed   uint64
 	// DefaultSuites leaves the cipher-suite list of the options empty (the library
 	// then discovers what the BMC advertises and picks from its defaults 17, 3);
 	// only meaningful when Suite is one of those two.
@@ -164,6 +167,7 @@ func GenCreds(suites []ref.Suite) *rapid.Generator[Creds] {
 		c.Priv = uint8(rapid.IntRange(0, 5).Draw(t, "priv"))
 		c.Lookup = rapid.Bool().Draw(t, "lookup")
 		c.Seed = rapid.Uint64().Draw(t, "bmcSeed")
+		c.Packed = rapid.SampledFrom([]int{0, 0, 0, 1, 2}).Draw(t, "secretsInOneBuffer")
 		return c
 	})
 }
@@ -178,22 +182,52 @@ func (c Creds) Opts() *bmc.V2SessionOpts {
 }
 
 func (c Creds) opts() *bmc.V2SessionOpts {
+	pw, kg := c.Password, c.KG
+	if c.Packed != 0 && pw != nil {
+		// the caller keeps its secrets in one buffer (a decoded secret blob, a
+		// memory-locked arena): the password and K_G handed to the library are
+		// adjacent sub-slices of it whose capacity extends over what follows
+		blob := make([]byte, 0, len(pw)+len(kg)+32)
+		if c.Packed == 1 {
+			blob = append(append(blob, pw...), kg...)
+			blob = append(blob, "next-secret-in-the-arena-0123456"...)
+			pw = blob[:len(pw)]
+			if kg != nil {
+				kg = blob[len(pw) : len(pw)+len(kg)]
+			}
+		} else {
+			blob = append(append(blob, kg...), pw...)
+			blob = append(blob, "next-secret-in-the-arena-0123456"...)
+			if kg != nil {
+				kg = blob[:len(kg)]
+			}
+			pw = blob[len(c.KG) : len(c.KG)+len(pw)]
+		}
+	}
 	return &bmc.V2SessionOpts{
 		SessionOpts: bmc.SessionOpts{
 			Username:          c.User,
-			Password:          c.Password,
+			Password:          pw,
 			MaxPrivilegeLevel: ipmi.PrivilegeLevel(c.Priv),
 		},
 		PrivilegeLevelLookup: c.Lookup,
-		KG:                   c.KG,
+		KG:                   kg,
 		CipherSuites:         []ipmi.CipherSuite{LibSuite(c.Suite)},
 	}
 }
 
+func private(b []byte) []byte {
+	if b == nil {
+		return nil
+	}
+	return append(make([]byte, 0, len(b)), b...)
+}
+
 // Install configures the BMC with the credentials' user and KG.
 func (c Creds) Install(b *simbmc.BMC) {
-	b.Users[c.User] = c.Password
-	b.KG = c.KG
+	// the BMC has its own copies of the secrets
+	b.Users[c.User] = private(c.Password)
+	b.KG = private(c.KG)
 	if c.DefaultSuites && IsLibraryDefault(c.Suite) {
 		// the BMC advertises exactly the suite to be negotiated
 		b.SuiteRecords = (&ref.SuiteRecord{ID: 3, Auth: c.Suite.Auth, Integs: []byte{c.Suite.Integ}, Confs: []byte{c.Suite.Conf}}).Bytes()
